@@ -207,7 +207,7 @@ def run(ctx):
     ctx.require_coverage(mc, ['Read'])
     exps = []
     for name, ch, l, sz in (('abSPNL', chars, ml, size), ('case', [0, 1, 4, 5], 3 if quick else 4, 'small'),
-                            ('lines', [0, 1], 7 if quick else 10, 'small')):
+                            ('lines', [0, 1], 6 if quick else 10, 'small')):
         ex = ctx.tlc('TextExport', cfg(ch, l, sz, export=True), name='export-' + name, count=False, timeout=3000)
         ops = ex.printed_json('OPS')[0]
         exps.append((ops, ex.printed_json('TEXT')))
